@@ -5,10 +5,10 @@ CFG = dict(
               "extrudeShape_wf", "screw_wf", "extrudeLine_wf", "extrudePolygon_wf", "marchBlock_wf", "march_wf", "quad_wf", "cube_wf", "cubeUnwelded_wf",
               "unweld_wf", "removeUnreferenced_wf", "toPointCloud_wf", "flip_wf", "setIndices_wf",
               "append_wf", "setAttr_wf", "setAttr_delete_wf", "modifyAttr_wf", "mapAttr_wf", "setNormals_wf", "filterAttr_wf",
-              "filterAttr_rejects_non_point", "filterAttrOld_breaks_triangles", "crop_wf", "removeNullFaces_wf",
-              "splitOnMaterials_wf", "weld_wf", "repeatMesh_wf", "step_wf", "ops_closed",
-              "translate_wf", "scaleAbout_wf", "scaleMesh_wf", "rotate_wf", "applyTRS_wf", "center_wf", "normalize_wf",
-              "smoothNormals_wf", "flatNormals_wf", "laplacian_wf"],
+              "filterAttr_rejects_non_point", "crop_wf", "removeNullFaces_wf",
+              "splitOnMaterials_wf", "weld_wf", "repeatMesh_wf", "clearAttrs_wf", "setData_wf", "step_wf", "ops_closed", "ops_closed_transforms", "march_blocks_wf",],
+    # one-line instances / records: kernel-checked with the module, not counted as property obligations
+    helper_theorems=["translate_wf", "scaleAbout_wf", "scaleMesh_wf", "rotate_wf", "applyTRS_wf", "center_wf", "normalize_wf", "smoothNormals_wf", "flatNormals_wf", "laplacian_wf", "filterAttrOld_breaks_triangles"],
     streams=[dict(name="c02", n=dict(quick=400, thorough=12000))],
     trusted=T_COMMON[1:] + [
         "hand-written pure models PolyVerif/Model/{Mesh,MeshOps,Primitives}.lean of modeling/mesh.go, modeling/meshops/*.go, "
